@@ -102,7 +102,20 @@ func (e *Exec) loadPtr(fr *frame, st *State, p Val, t types.Type, pos token.Pos)
 		el := t.Underlying().(*types.Array).Elem()
 		return Val{T: sel(e.heapTerm(st, e.elemHeap(el)), p.T), S: s, GoT: t}
 	}
-	return Val{T: sel(e.heapTerm(st, e.boxHeap(t)), p.T), S: s, GoT: t}
+	return Val{T: e.derefTerm(st, p.T, t), S: s, GoT: t}
+}
+
+// derefTerm: the value of type t (not a struct or array) that pointer p points
+// to. Normally p is the address of a boxed variable; in functions that `uses
+// ELEMPTR` it may also be a pointer to a slice element (see termOf).
+func (e *Exec) derefTerm(st *State, p string, t types.Type) string {
+	box := sel(e.heapTerm(st, e.boxHeap(t)), p)
+	if !e.uses("ELEMPTR") {
+		return box
+	}
+	isE := and(lt(p, "0"), lt(app("embidx", p), "0"))
+	elem := sel(sel(e.heapTerm(st, e.elemHeap(t)), app("embbase", p)), "(- (- 0 1) (embidx "+p+"))")
+	return ite(isE, elem, box)
 }
 
 func (e *Exec) storePtr(fr *frame, st *State, p Val, t types.Type, v Val, pos token.Pos) {
@@ -153,6 +166,13 @@ func (e *Exec) termOf(st *State, v Val, t types.Type) Val {
 		e.ctx.assume(lt("0", c))
 		e.closureIDs[c] = v.Clo
 		return Val{T: c, S: sInt, GoT: t, Clo: v.Clo}
+	}
+	if v.Addr != nil && v.Addr.Kind == aElem && e.uses("ELEMPTR") {
+		// a pointer to a slice element as a first-class value: emb(array, -1-pos)
+		// (negative index distinguishes it from a pointer to an embedded struct);
+		// it stays valid when the slice variable is later re-sliced or reallocated
+		pos := add(slOff(v.Addr.Sl), v.Addr.Idx)
+		return Val{T: app("emb", slRef(v.Addr.Sl), "(- (- 0 1) "+pos+")"), S: sInt, GoT: t}
 	}
 	if v.Addr != nil {
 		e.note("pointer into an element or field is stored in memory or passed to a call: treated as opaque")
